@@ -86,3 +86,28 @@ Definition rstep (cfg : config) (roles : list role) (s : state) (g' : gstate) (s
                             /\ coh cfg roles' (g_chans g') (g_wgs g') s
                             /\ (rank_sum (c_targets cfg) roles' < rank_sum (c_targets cfg) roles \/ pure_move roles roles'))
   \/ ((exists l, step cfg s l = Some s') /\ skel_rel cfg g' s').
+
+(** ** Ranked coupled runs: the coupled runs of Pipe/Converse.v with the roles written out.
+
+    [rrun Pg cfg R C W s acts k R2 C2 W2 s2]: from the state of the skeleton semantics with goroutines [map th_of R],
+    channels [C] and wait groups [W], coupled with the model state [s], the actions [acts] lead to [R2 C2 W2] coupled
+    with [s2]; no step panics; [k] of the steps are steps of the Snapper inside a call of processMultiPolygon /
+    polygonsToMulti; every other step either is a step of the model or lowers the sum of the ranks. *)
+Definition gst (ts : list tmid) (R : list role) (C : list bool) (W : list nat) : gstate := MkG (map (th_of ts) R) C W None.
+
+Definition rmove (cfg : config) (R : list role) (s : state) (R1 : list role) (s1 : state) (pure : bool) : Prop :=
+  (s1 = s /\ if pure then pure_move R R1 else rank_sum (c_targets cfg) R1 < rank_sum (c_targets cfg) R)
+  \/ (pure = false /\ exists l, step cfg s l = Some s1).
+
+Inductive rrun (Pg : list func) (cfg : config) :
+  list role -> list bool -> list nat -> state -> list action -> nat -> list role -> list bool -> list nat -> state -> Prop :=
+| rrun_nil : forall R C W s, rrun Pg cfg R C W s [] 0 R C W s
+| rrun_cons : forall R C W s a ev R1 C1 W1 s1 pure acts k R2 C2 W2 s2,
+    gstep Pg (gst (c_targets cfg) R C W) a = Some (gst (c_targets cfg) R1 C1 W1, ev) ->
+    data_ok s (gst (c_targets cfg) R C W) a ->
+    coh cfg R1 C1 W1 s1 -> s_panic s1 = None -> rmove cfg R s R1 s1 pure ->
+    rrun Pg cfg R1 C1 W1 s1 acts k R2 C2 W2 s2 ->
+    rrun Pg cfg R C W s (a :: acts) (Nat.b2n pure + k) R2 C2 W2 s2.
+
+(** the bound on the sum of the ranks after the first go statement of Main *)
+Definition rank_bound (ts : list tmid) : nat := 32 + 17 * List.length ts.
